@@ -498,6 +498,11 @@ class Interp(ExprMixin):
             elif isinstance(recv, Poly) and recv.single_atom() is not None and recv.single_atom()[0] == 'attr':
                 st.heap[recv.single_atom()] = app('mut:' + name, P(recv), *[P(a) for a in args])
             return NONE
+        sig = _RNG_SIGNATURES.get(name)
+        if sig and args and len(args) <= len(sig) and not any(k in kwargs for k in sig[:len(args)]):
+            # draws from a Generator: positional arguments are named (normal(a, b) == normal(loc=a, scale=b))
+            kwargs = dict(kwargs, **{k: v for k, v in zip(sig, args)})
+            args = []
         self.log(st, 'call', node, callee='method:' + name, bound={}, recv=recv, args=args, kwargs=kwargs)
         if name == 'dot' and len(args) == 1:
             return app('dot', P(recv), P(args[0]))
@@ -881,6 +886,11 @@ class Interp(ExprMixin):
             cont, d3 = self.exec_block(s.finalbody, cont)
             done += d3
         return cont, done
+
+
+_RNG_SIGNATURES = {'normal': ('loc', 'scale', 'size'), 'poisson': ('lam', 'size'), 'lognormal': ('mean', 'sigma', 'size'),
+                   'standard_normal': ('size',), 'uniform': ('low', 'high', 'size'), 'random': ('size',),
+                   'exponential': ('scale', 'size'), 'binomial': ('n', 'p', 'size')}
 
 
 def _known_mapping(v):
